@@ -5,22 +5,44 @@ namespace PP.Threads.Locks
 /-- hold counts of thread `t`, read off the lock table -/
 def heldOf (s : LState) (t : Tid) : Held := fun l => if s.owner l = some t then s.count l else 0
 
-structure LInv (rank : Lock → Nat) (s : LState) : Prop where
-  ord : ∀ t, ordered rank (heldOf s t) (s.prog t) = true
+structure LInv (n : Nat) (rank : Nat → Nat) (s : LState) : Prop where
+  ord : ∀ t, ordered n rank (heldOf s t) (s.prog t) = true
   pos : ∀ l t, s.owner l = some t → 0 < s.count l
   free : ∀ l, s.owner l = none → s.count l = 0
+  bound : ∀ l, n ≤ l → s.owner l = none
 
-theorem Held.dec_inc (h : Held) (l : Lock) : (h.inc l).dec l = h := by
+theorem Held.dec_inc (h : Held) (l : Nat) : (h.inc l).dec l = h := by
   funext l'; simp only [Held.inc, Held.dec]; split <;> simp
 
-theorem linit_inv {rank prog} (h0 : ∀ t, ordered rank Held.zero (prog t) = true) : LInv rank (linit prog) := by
-  refine ⟨fun t => ?_, fun l t h => ?_, fun _ _ => rfl⟩
+theorem lowerHeld_spec {n rank h l} (hl : lowerHeld n rank h l = true) {l' : Nat} (hn : l' < n)
+    (hh : 0 < h l') : rank l' < rank l := by
+  simp only [lowerHeld, List.all_eq_true, List.mem_range, Bool.or_eq_true, beq_iff_eq, decide_eq_true_eq] at hl
+  rcases hl l' hn with h0 | h1
+  · omega
+  · exact h1
+
+theorem lowerHeld_of {n rank h l} (hl : ∀ l' : Nat, l' < n → h l' = 0 ∨ rank l' < rank l) :
+    lowerHeld n rank h l = true := by
+  simp only [lowerHeld, List.all_eq_true, List.mem_range, Bool.or_eq_true, beq_iff_eq, decide_eq_true_eq]
+  exact hl
+
+theorem noneHeld_spec {n h} (hz : noneHeld n h = true) {l' : Nat} (hn : l' < n) : h l' = 0 := by
+  simp only [noneHeld, List.all_eq_true, List.mem_range, beq_iff_eq] at hz
+  exact hz l' hn
+
+theorem noneHeld_of {n h} (hz : ∀ l' : Nat, l' < n → h l' = 0) : noneHeld n h = true := by
+  simp only [noneHeld, List.all_eq_true, List.mem_range, beq_iff_eq]
+  exact hz
+
+theorem linit_inv {n rank prog} (h0 : ∀ t, ordered n rank Held.zero (prog t) = true) :
+    LInv n rank (linit prog) := by
+  refine ⟨fun t => ?_, fun l t h => ?_, fun _ _ => rfl, fun _ _ => rfl⟩
   · have : heldOf (linit prog) t = Held.zero := by funext l; simp [heldOf, linit, Held.zero]
     rw [this]; exact h0 t
   · simp [linit] at h
 
 set_option linter.unusedSimpArgs false in
-theorem lstep_inv {rank s t s'} (h : lstep s t = some s') (inv : LInv rank s) : LInv rank s' := by
+theorem lstep_inv {n rank s t s'} (h : lstep s t = some s') (inv : LInv n rank s) : LInv n rank s' := by
   have ho := inv.ord t
   unfold lstep at h
   split at h
@@ -29,7 +51,7 @@ theorem lstep_inv {rank s t s'} (h : lstep s t = some s') (inv : LInv rank s) : 
     rename_i r hp
     cases h
     have hh : ∀ u, heldOf { s with prog := upd s.prog t r } u = heldOf s u := fun u => rfl
-    refine ⟨fun u => ?_, inv.pos, inv.free⟩
+    refine ⟨fun u => ?_, inv.pos, inv.free, inv.bound⟩
     rw [hh u]
     by_cases hu : u = t
     · subst hu; rw [hp] at ho; simpa [ordered] using ho
@@ -40,8 +62,9 @@ theorem lstep_inv {rank s t s'} (h : lstep s t = some s') (inv : LInv rank s) : 
     · rename_i hc
       cases h
       rw [hp] at ho
-      simp only [ordered, Bool.and_eq_true] at ho
-      refine ⟨fun u => ?_, fun l' u hu => ?_, fun l' hl' => ?_⟩
+      simp only [ordered, Bool.and_eq_true, decide_eq_true_eq] at ho
+      have hln : l < n := ho.1.1
+      refine ⟨fun u => ?_, fun l' u hu => ?_, fun l' hl' => ?_, fun l' hl' => ?_⟩
       · by_cases hu : u = t
         · subst hu
           have : heldOf ⟨setL s.owner l (some u), setL s.count l (s.count l + 1), upd s.prog u r⟩ u =
@@ -75,6 +98,8 @@ theorem lstep_inv {rank s t s'} (h : lstep s t = some s') (inv : LInv rank s) : 
         split
         · rename_i hl; simp [hl] at hl'
         · rename_i hl; simp only [hl, if_false] at hl'; exact inv.free l' hl'
+      · have hne : l' ≠ l := by omega
+        simp only [setL, hne, if_false]; exact inv.bound l' hl'
     · cases h
   · -- rel
     rename_i l r hp
@@ -84,7 +109,10 @@ theorem lstep_inv {rank s t s'} (h : lstep s t = some s') (inv : LInv rank s) : 
       rw [hp] at ho
       simp only [ordered, Bool.and_eq_true, decide_eq_true_eq] at ho
       have hpos := inv.pos l t hc
-      refine ⟨fun u => ?_, fun l' u hu => ?_, fun l' hl' => ?_⟩
+      have hln : l < n := by
+        apply Classical.byContradiction; intro hge
+        have := inv.bound l (by omega); rw [this] at hc; cases hc
+      refine ⟨fun u => ?_, fun l' u hu => ?_, fun l' hl' => ?_, fun l' hl' => ?_⟩
       · by_cases hu : u = t
         · subst hu
           have : heldOf ⟨setL s.owner l (if s.count l ≤ 1 then none else some u),
@@ -123,18 +151,20 @@ theorem lstep_inv {rank s t s'} (h : lstep s t = some s') (inv : LInv rank s) : 
           · omega
           · cases hl'
         · rename_i hl; simp only [hl, if_false] at hl'; exact inv.free l' hl'
+      · have hne : l' ≠ l := by omega
+        simp only [setL, hne, if_false]; exact inv.bound l' hl'
     · cases h
 
-theorem lreach_inv {rank s s'} (r : LReach s s') (inv : LInv rank s) : LInv rank s' := by
+theorem lreach_inv {n rank s s'} (r : LReach s s') (inv : LInv n rank s) : LInv n rank s' := by
   induction r with
   | refl => exact inv
   | tail t _ hs ih => exact lstep_inv hs ih
 
 /-- thread `t` waits in `acquire(l)` for a lock another thread owns -/
-def BlockedOn (s : LState) (t : Tid) (l : Lock) : Prop :=
+def BlockedOn (s : LState) (t : Tid) (l : Nat) : Prop :=
   (∃ r, s.prog t = .acq l :: r) ∧ ∃ u, s.owner l = some u ∧ u ≠ t
 
-theorem stuck_blocked {rank s t} (inv : LInv rank s) (hne : s.prog t ≠ []) (hst : lstep s t = none) :
+theorem stuck_blocked {n rank s t} (inv : LInv n rank s) (hne : s.prog t ≠ []) (hst : lstep s t = none) :
     ∃ l, BlockedOn s t l := by
   have ho := inv.ord t
   unfold lstep at hst
@@ -158,9 +188,15 @@ theorem stuck_blocked {rank s t} (inv : LInv rank s) (hne : s.prog t ≠ []) (hs
       have : heldOf s t l = 0 := by simp [heldOf, hc]
       omega
 
+theorem blocked_lt {n rank s t l} (inv : LInv n rank s) (hb : BlockedOn s t l) : l < n := by
+  obtain ⟨_, u, hou, _⟩ := hb
+  apply Classical.byContradiction; intro hge
+  have := inv.bound l (by omega); rw [this] at hou; cases hou
+
 /-- if nobody can step, whoever is waited for is itself waiting for a lock of strictly higher rank -/
-theorem blocked_chain {rank s} (inv : LInv rank s) (hall : ∀ t, lstep s t = none) {t l}
+theorem blocked_chain {n rank s} (inv : LInv n rank s) (hall : ∀ t, lstep s t = none) {t l}
     (hb : BlockedOn s t l) : ∃ t' l', BlockedOn s t' l' ∧ rank l < rank l' := by
+  have hln := blocked_lt inv hb
   obtain ⟨_, u, hou, _⟩ := hb
   have hpos := inv.pos l u hou
   have hheld : 0 < heldOf s u l := by simp [heldOf, hou, hpos]
@@ -168,8 +204,9 @@ theorem blocked_chain {rank s} (inv : LInv rank s) (hall : ∀ t, lstep s t = no
     intro hn
     have ho := inv.ord u
     rw [hn] at ho
-    simp only [ordered, Bool.and_eq_true, beq_iff_eq] at ho
-    cases l <;> omega
+    simp only [ordered] at ho
+    have := noneHeld_spec ho hln
+    omega
   obtain ⟨l', hb'⟩ := stuck_blocked inv hne (hall u)
   refine ⟨u, l', hb', ?_⟩
   obtain ⟨⟨r, hp⟩, w, how, hwu⟩ := hb'
@@ -178,18 +215,22 @@ theorem blocked_chain {rank s} (inv : LInv rank s) (hall : ∀ t, lstep s t = no
   have h0 : heldOf s u l' = 0 := by
     have : s.owner l' ≠ some u := by rw [how]; exact fun e => hwu (Option.some.inj e)
     simp [heldOf, this]
-  simp only [ordered, Bool.and_eq_true, Bool.or_eq_true, decide_eq_true_eq, lowerHeld, beq_iff_eq] at ho
-  rcases ho.1 with h | h
+  simp only [ordered, Bool.and_eq_true, Bool.or_eq_true, decide_eq_true_eq] at ho
+  rcases ho.1.2 with h | h
   · omega
-  · cases l
-    · rcases h.1 with h | h
-      · omega
-      · exact h
-    · rcases h.2 with h | h
-      · omega
-      · exact h
+  · exact lowerHeld_spec h hln hheld
 
-theorem no_stuck_state {rank s} (inv : LInv rank s) (hu : ∃ t, s.prog t ≠ []) :
+theorem rank_bound (rank : Nat → Nat) : ∀ n : Nat, ∃ B, ∀ l : Nat, l < n → rank l < B
+  | 0 => ⟨0, fun _ h => absurd h (Nat.not_lt_zero _)⟩
+  | n + 1 => by
+    obtain ⟨B, hB⟩ := rank_bound rank n
+    refine ⟨max B (rank n + 1), fun l hl => ?_⟩
+    by_cases h : l < n
+    · have := hB l h; omega
+    · have : l = n := by omega
+      subst this; omega
+
+theorem no_stuck_state {n rank s} (inv : LInv n rank s) (hu : ∃ t, s.prog t ≠ []) :
     ∃ t, (lstep s t).isSome = true := by
   apply Classical.byContradiction
   intro hn
@@ -200,68 +241,91 @@ theorem no_stuck_state {rank s} (inv : LInv rank s) (hu : ∃ t, s.prog t ≠ []
     | some _ => exact absurd ⟨t, by simp [h]⟩ hn
   obtain ⟨t, ht⟩ := hu
   obtain ⟨l0, b0⟩ := stuck_blocked inv ht (hall t)
-  obtain ⟨_, l1, b1, h01⟩ := blocked_chain inv hall b0
-  obtain ⟨_, l2, b2, h12⟩ := blocked_chain inv hall b1
-  obtain ⟨_, l3, _, h23⟩ := blocked_chain inv hall b2
-  cases l0 <;> cases l1 <;> cases l2 <;> cases l3 <;> omega
+  have climb : ∀ k : Nat, ∃ t l, BlockedOn s t l ∧ k ≤ rank l := by
+    intro k
+    induction k with
+    | zero => exact ⟨t, l0, b0, Nat.zero_le _⟩
+    | succ k ih =>
+      obtain ⟨t1, l1, b1, h1⟩ := ih
+      obtain ⟨t2, l2, b2, h2⟩ := blocked_chain inv hall b1
+      exact ⟨t2, l2, b2, by omega⟩
+  obtain ⟨B, hB⟩ := rank_bound rank n
+  obtain ⟨t', l', b', hk⟩ := climb B
+  have := hB l' (blocked_lt inv b')
+  omega
 
-theorem packrat_ordered {rank p} (hp : PackratProg p) :
-    ∀ (h : Held) (q : List Op), h .R = 0 → ordered rank h q = true → ordered rank h (p ++ q) = true := by
+theorem packrat_ordered {n rank p} (hn : 2 ≤ n) (hp : PackratProg p) :
+    ∀ (h : Held) (q : List Op), (∀ l' : Nat, l' ≠ P → h l' = 0) → ordered n rank h q = true →
+      ordered n rank h (p ++ q) = true := by
+  have hPn : P < n := by simp [P]; omega
+  have acqP : ∀ h : Held, (∀ l' : Nat, l' ≠ P → h l' = 0) → (0 < h P ∨ lowerHeld n rank h P = true) := by
+    intro h hr
+    by_cases hP : h P = 0
+    · refine Or.inr (lowerHeld_of fun l' _ => ?_)
+      by_cases e : l' = P
+      · subst e; exact Or.inl hP
+      · exact Or.inl (hr l' e)
+    · exact Or.inl (by omega)
+  have incP : ∀ h : Held, (∀ l' : Nat, l' ≠ P → h l' = 0) → ∀ l' : Nat, l' ≠ P → (h.inc P) l' = 0 := by
+    intro h hr l' e; simp [Held.inc, e, hr l' e]
   induction hp with
   | nil => intro h q _ hq; simpa using hq
   | tau _ ih => intro h q hr hq; simpa [ordered] using ih h q hr hq
   | @cached a b _ _ iha ihb =>
     intro h q hr hq
-    have e : (Op.acq Lock.P :: (a ++ Op.rel Lock.P :: b)) ++ q = .acq .P :: (a ++ (.rel .P :: (b ++ q))) := by simp
+    have e : (Op.acq P :: (a ++ Op.rel P :: b)) ++ q = .acq P :: (a ++ (.rel P :: (b ++ q))) := by simp
     rw [e]
-    simp only [ordered, Bool.and_eq_true, Bool.or_eq_true, decide_eq_true_eq, lowerHeld, beq_iff_eq]
-    refine ⟨?_, ?_⟩
-    · by_cases hP : h .P = 0
-      · exact Or.inr ⟨Or.inl hr, Or.inl hP⟩
-      · exact Or.inl (by omega)
-    · apply iha
-      · simp [Held.inc, hr]
-      · simp only [ordered, Bool.and_eq_true, decide_eq_true_eq]
-        refine ⟨by simp [Held.inc], ?_⟩
-        rw [Held.dec_inc]; exact ihb h q hr hq
+    simp only [ordered, Bool.and_eq_true, Bool.or_eq_true, decide_eq_true_eq]
+    refine ⟨⟨hPn, acqP h hr⟩, ?_⟩
+    apply iha _ _ (incP h hr)
+    simp only [ordered, Bool.and_eq_true, decide_eq_true_eq]
+    refine ⟨by simp [Held.inc], ?_⟩
+    rw [Held.dec_inc]; exact ihb h q hr hq
   | @entry p _ ih =>
     intro h q hr hq
-    have e : (reset ++ p) ++ q = .acq .P :: .tau :: .tau :: .rel .P :: (p ++ q) := by simp [reset]
+    have e : (reset ++ p) ++ q = .acq P :: .tau :: .tau :: .rel P :: (p ++ q) := by simp [reset]
     rw [e]
-    simp only [ordered, Bool.and_eq_true, Bool.or_eq_true, decide_eq_true_eq, lowerHeld, beq_iff_eq]
-    refine ⟨?_, by simp [Held.inc], ?_⟩
-    · by_cases hP : h .P = 0
-      · exact Or.inr ⟨Or.inl hr, Or.inl hP⟩
-      · exact Or.inl (by omega)
-    · rw [Held.dec_inc]; exact ih h q hr hq
+    simp only [ordered, Bool.and_eq_true, Bool.or_eq_true, decide_eq_true_eq]
+    refine ⟨⟨hPn, acqP h hr⟩, by simp [Held.inc], ?_⟩
+    rw [Held.dec_inc]; exact ih h q hr hq
 
-theorem lr_ordered {p} (hp : LRProg p) :
-    ∀ (h : Held) (q : List Op), h .P = 0 → ordered codeRank h q = true → ordered codeRank h (p ++ q) = true := by
+theorem lr_ordered {n p} (hn : 2 ≤ n) (hp : LRProg p) :
+    ∀ (h : Held) (q : List Op), (∀ l' : Nat, l' ≠ R → h l' = 0) → ordered n codeRank h q = true →
+      ordered n codeRank h (p ++ q) = true := by
+  have hPn : P < n := by simp [P]; omega
+  have hRn : R < n := by simp [R]; omega
+  have hPR : P ≠ R := by simp [P, R]
+  have incR : ∀ h : Held, (∀ l' : Nat, l' ≠ R → h l' = 0) → ∀ l' : Nat, l' ≠ R → (h.inc R) l' = 0 := by
+    intro h hr l' e; simp [Held.inc, e, hr l' e]
   induction hp with
   | nil => intro h q _ hq; simpa using hq
   | tau _ ih => intro h q hr hq; simpa [ordered] using ih h q hr hq
   | @forward a b _ _ iha ihb =>
-    intro h q hP hq
-    have e : (Op.acq Lock.R :: (a ++ Op.rel Lock.R :: b)) ++ q = .acq .R :: (a ++ (.rel .R :: (b ++ q))) := by simp
+    intro h q hr hq
+    have e : (Op.acq R :: (a ++ Op.rel R :: b)) ++ q = .acq R :: (a ++ (.rel R :: (b ++ q))) := by simp
     rw [e]
-    simp only [ordered, Bool.and_eq_true, Bool.or_eq_true, decide_eq_true_eq, lowerHeld, beq_iff_eq]
-    refine ⟨?_, ?_⟩
-    · by_cases hR : h .R = 0
-      · exact Or.inr ⟨Or.inl hR, Or.inl hP⟩
+    simp only [ordered, Bool.and_eq_true, Bool.or_eq_true, decide_eq_true_eq]
+    refine ⟨⟨hRn, ?_⟩, ?_⟩
+    · by_cases hR : h R = 0
+      · refine Or.inr (lowerHeld_of fun l' _ => ?_)
+        by_cases e : l' = R
+        · subst e; exact Or.inl hR
+        · exact Or.inl (hr l' e)
       · exact Or.inl (by omega)
-    · apply iha
-      · simp [Held.inc, hP]
-      · simp only [ordered, Bool.and_eq_true, decide_eq_true_eq]
-        refine ⟨by simp [Held.inc], ?_⟩
-        rw [Held.dec_inc]; exact ihb h q hP hq
+    · apply iha _ _ (incR h hr)
+      simp only [ordered, Bool.and_eq_true, decide_eq_true_eq]
+      refine ⟨by simp [Held.inc], ?_⟩
+      rw [Held.dec_inc]; exact ihb h q hr hq
   | @entry p _ ih =>
-    intro h q hP hq
-    have e : (reset ++ p) ++ q = .acq .P :: .tau :: .tau :: .rel .P :: (p ++ q) := by simp [reset]
+    intro h q hr hq
+    have e : (reset ++ p) ++ q = .acq P :: .tau :: .tau :: .rel P :: (p ++ q) := by simp [reset]
     rw [e]
-    simp only [ordered, Bool.and_eq_true, Bool.or_eq_true, decide_eq_true_eq, lowerHeld, beq_iff_eq]
-    refine ⟨?_, by simp [Held.inc], ?_⟩
-    · exact Or.inr ⟨Or.inr (by simp [codeRank]), Or.inl hP⟩
-    · rw [Held.dec_inc]; exact ih h q hP hq
+    simp only [ordered, Bool.and_eq_true, Bool.or_eq_true, decide_eq_true_eq]
+    refine ⟨⟨hPn, Or.inr (lowerHeld_of fun l' _ => ?_)⟩, by simp [Held.inc], ?_⟩
+    · by_cases e : l' = R
+      · subst e; exact Or.inr (by simp [codeRank, R, P])
+      · exact Or.inl (hr l' e)
+    · rw [Held.dec_inc]; exact ih h q hr hq
 
 theorem lrun_reach : ∀ (sched : List Tid) (a s s' : LState), LReach a s → lrun s sched = some s' → LReach a s'
   | [], a, s, s', r, h => by simp [lrun] at h; exact h ▸ r
